@@ -486,6 +486,12 @@ class Arr:
     def abs(self):
         return abs(self)
 
+    def round(self, decimals=0):
+        """element-wise round half to even to `decimals` places (numpy / torch semantics on exact values)"""
+        self._nograd("round")
+        f = lambda v: (v if isinstance(v, (int, SInt)) and not isinstance(v, bool) else (lambda r_: r_ if decimals else (core.s_float(r_) if str(self.dtype).startswith("float") else r_))(core.s_round(v, decimals)))
+        return self._new(_uf(f, 1)(self.a) if self.a.size else self.a.copy())
+
     def __pow__(self, o):
         if isinstance(o, int) and o >= 0:
             r = None
